@@ -97,3 +97,59 @@ pub fn verif_drain_from_next_back<T>(v: &mut Vec<T>, from: usize) -> (r: Option<
 {
     v.drain(from..).next_back()
 }
+
+// ---- HashMap::retain / Vec::pop_if -----------------------------------------------------------------
+/// `m.retain(f)` behind a contract (rewrite rule tokens-to-helper): every entry is offered to `f` once, by mutable
+/// reference; it stays (with whatever `f` made of the value) iff `f` answers true.  ASSUMED; the body is what the
+/// code called.
+#[verifier::external_body]
+pub fn verif_retain<K: std::cmp::Eq + std::hash::Hash, V, F: FnMut(&K, &mut V) -> bool>(m: &mut HashMap<K, V>, f: F)
+    requires
+        forall|k: &K, v: &mut V| call_requires(f, (k, v)),
+    ensures
+        forall|k: K| #[trigger] final(m)@.contains_key(k) ==> old(m)@.contains_key(k),
+        forall|k: K| #[trigger] old(m)@.contains_key(k) ==> exists|v: &mut V, b: bool| *v == old(m)@[k] && call_ensures(f, (&k, v), b)
+             && (b ==> final(m)@.contains_key(k) && final(m)@[k] == *final(v)) && (!b ==> !final(m)@.contains_key(k)),
+{
+    m.retain(f)
+}
+
+/// ASSUMED contract of `Vec::pop_if`: the last element is offered to the predicate by mutable reference and
+/// removed iff the predicate answers true.
+pub assume_specification<T, A: std::alloc::Allocator, F: FnOnce(&mut T) -> bool>[ Vec::<T, A>::pop_if ](v: &mut Vec<T, A>, f: F) -> (r: Option<T>)
+    requires
+        forall|x: &mut T| call_requires(f, (x,)),
+    ensures
+        old(v)@.len() == 0 ==> r is None && final(v)@ == old(v)@,
+        old(v)@.len() > 0 ==> exists|x: &mut T, b: bool| *x == old(v)@.last() && call_ensures(f, (x,), b)
+            && (b ==> r == Some(*final(x)) && final(v)@ == old(v)@.drop_last())
+            && (!b ==> r is None && final(v)@ == old(v)@.drop_last().push(*final(x)));
+
+// ---- the environment of executed programs ----------------------------------------------------------
+#[verifier::external_type_specification]
+#[verifier::external_body]
+pub struct ExCString(std::ffi::CString);
+
+/// `t` is what `f` made of some entry of the map
+pub open spec fn produced_by<K, V, T, F: FnMut((&K, &V)) -> Option<T>>(m: Map<K, V>, f: F, t: T) -> bool {
+    exists|k: K| #![trigger m.contains_key(k)] m.contains_key(k) && call_ensures(f, ((&k, &m[k]),), Some(t))
+}
+/// `m.iter().filter_map(f).collect()` behind a contract (rewrite rule tokens-to-helper): the results `f` gives for
+/// the entries of the map, in some order.  ASSUMED; the body is what the code called.
+#[verifier::external_body]
+pub fn verif_filter_map_collect<K: std::cmp::Eq + std::hash::Hash, V, T, F: FnMut((&K, &V)) -> Option<T>>(m: &HashMap<K, V>, f: F) -> (r: Vec<T>)
+    requires
+        forall|k: &K, v: &V| call_requires(f, ((k, v),)),
+    ensures
+        forall|i: int| 0 <= i < r@.len() ==> produced_by(m@, f, #[trigger] r@[i]),
+        r@.len() <= m@.len(),
+{
+    m.iter().filter_map(f).collect()
+}
+
+/// `p` occurs in the string (meaning of `str::contains` for the pattern type `P`); ASSUMED: membership for a `char`
+pub uninterp spec fn pat_in<P>(s: Seq<char>, p: P) -> bool;
+pub broadcast axiom fn axiom_pat_char(s: Seq<char>, c: char)
+    ensures #[trigger] pat_in::<char>(s, c) == s.contains(c);
+pub assume_specification<P: core::str::pattern::Pattern>[ str::contains::<P> ](s: &str, p: P) -> (b: bool)
+    ensures b == pat_in(s@, p);
